@@ -194,6 +194,13 @@ def coversClasses (tbl : List GuardedAccess) : Bool :=
 
 theorem c03_lock_tables_cover : coversClasses Generated.guardedAccesses = true := by decide
 
+/-- no pointer into lock-guarded data can outlive the lock region it was obtained in: nowhere in the guarded classes is the address of
+a guarded field (or of an element of a guarded container) taken, and no lock-held helper / locking member function returns a pointer or
+a reference — results leave the lock region by value only.  (Seeded change r5-c16-copy-value-outside-lock: `get_value_lk` returned
+`&_q[relpos]` and `get_value` copied `*v` after the `lock_guard` was gone, while `push_lk` may trim exactly that element.)  The accesses
+the lock tables classify are accesses to the *fields*; this closes the gap for accesses through pointers derived from them. -/
+theorem c03_guarded_data_does_not_escape : Generated.guardedEscapes = [] := by decide
+
 /-- what lock discipline buys, for any number of client threads calling any sequence of disciplined member functions -/
 theorem c03_lock_discipline_safe (progs : Nat → List LockDisc.Act) (h : ∀ t, LockDisc.Disciplined (progs t) = true) :
     ∀ sched : List Nat, (LockDisc.run progs sched).raced = false :=
@@ -234,6 +241,39 @@ theorem c03_tracer_ref_before_publish :
     anyBefore (positionsOf Generated.plainAccesses "resolve_cb" "charge" "" "_ptr" true)
               (positions Generated.plainAccesses "resolve_cb" "charge" ["call:subscribe"]) = true
     ∧ (positions Generated.plainAccesses "resolve_cb" "charge" ["call:subscribe"]).length = 1 := by decide
+
+/-- `reusable_storage_mtsafe::dealloc` hands the shared block back by its release store of `_busy` and writes nothing afterwards —
+neither the storage's own fields nor anything through a pointer into the block (`*s = …`): from that store on another thread may
+already have a live frame there (seeded change r5-c19-dealloc-clears-trailer-after-release) -/
+def mtsafeDeallocWritesBeforeRelease (tbl : List PlainAccess) : Bool :=
+  (tbl.filter (fun a => a.cls == "reusable_storage_mtsafe" && a.fn == "dealloc" && !a.inAssert && a.write)).all (fun a => a.nOps == 0)
+
+theorem c03_mtsafe_dealloc_no_write_after_release : mtsafeDeallocWritesBeforeRelease Generated.plainAccesses = true := by decide
+
+/-- …and `alloc` writes into the block (the trailer `*s = owner`) only after it has acquired `_busy` (non-vacuity of the pointer-write rows) -/
+theorem c03_mtsafe_alloc_writes_after_acquire :
+    (Generated.plainAccesses.filter (fun a => a.cls == "reusable_storage_mtsafe" && a.fn == "alloc" && a.write && a.field == "*s")).all (fun a => a.nOps ≥ 1) = true
+    ∧ (Generated.plainAccesses.filter (fun a => a.cls == "reusable_storage_mtsafe" && a.fn == "alloc" && a.write && a.field == "*s")).length ≥ 1 := by decide
+
+/-- `scheduler::start_in(thread_pool&)` stores the pool pointer into the global state BEFORE it hands the worker coroutine to the pool
+(`pool.resume(...)`): the enqueue under the pool's mutex is the only thing that orders the starting thread before the worker, whose
+first statement reads `_glob_state->_pool` (seeded change r5-c03-start-in-sets-pool-after-handover; this is the fact the exemption of
+`_glob_state` from the lock-guarded fields of `scheduler` rests on: set up before the worker exists) -/
+theorem c03_start_in_sets_pool_before_handover :
+    allBefore (positionsOf Generated.plainAccesses "scheduler" "start_in" "operator->" "_pool" true)
+              (positions Generated.plainAccesses "scheduler" "start_in" ["call:resume"]) = true
+    ∧ (positionsOf Generated.plainAccesses "scheduler" "start_in" "operator->" "_pool" true).length = 1
+    ∧ (positions Generated.plainAccesses "scheduler" "start_in" ["call:resume"]).length = 1 := by decide
+
+/-- the RELAXED hint loads of a future (`pending()`, `initialized()`) are called, outside assertions, only where no access to the
+result depends on the answer: `future::value()` after it has found no value (to tell "not ready" from "canceled"), and `shared_future`
+deciding whether to charge its tracer before the state is shared.  Anything that gates a read of the result must go through the
+acquire load `ready()` (seeded change r5-c03-has-value-polls-pending: `awaitable_bool` asked `pending()` and then read `_state`) -/
+def hintCallAllowed (c : String × String × String) : Bool :=
+  c == ("future", "value", "pending") || c == ("shared_future", "operator<<", "pending")
+  || c == ("shared_future", "shared_future<T, Base>", "pending")
+
+theorem c03_hint_loads_gate_nothing : Generated.hintCalls.all hintCallAllowed = true := by decide
 
 /-- the walker reads and clears a node's `_next` before it resumes that node (after which the node may be gone) -/
 theorem c03_walk_reads_next_before_resume :
